@@ -136,6 +136,16 @@ type SymDef struct {
 	Ports                    []PortDef
 }
 
+// refsFrom: does the definition's spec name any target for out-port p?
+func (d *SymDef) refsFrom(p int) bool {
+	for _, pd := range d.Ports {
+		if pd.Port == p && len(pd.Refs) > 0 {
+			return true
+		}
+	}
+	return false
+}
+
 func (d *SymDef) line() string {
 	var b strings.Builder
 	hn := 1
@@ -245,16 +255,17 @@ type live struct {
 }
 
 type world struct {
-	tbl    *symbol.Table
-	mu     sync.Mutex
-	log    []ev
-	inReg  map[*port.InPort]string // every in-port ever created -> "id.port" or "dead"
-	inLive map[*port.InPort]*symbol.Symbol
-	cur    map[int]*live // harness's own record: what a correct table contains
-	idKey  map[string]int
-	reuse  bool // re-insert the same *Symbol object for the same definition
-	pool   map[string]*symbol.Symbol
-	reused int
+	tbl     *symbol.Table
+	mu      sync.Mutex
+	log     []ev
+	inReg   map[*port.InPort]string // every in-port ever created -> "id.port" or "dead"
+	inLive  map[*port.InPort]*symbol.Symbol
+	cur     map[int]*live // harness's own record: what a correct table contains
+	idKey   map[string]int
+	reuse   bool // re-insert the same *Symbol object for the same definition
+	cluster bool // one-to-one nodes of even ids are built as a symbol.Cluster around the node
+	pool    map[string]*symbol.Symbol
+	reused  int
 
 	// hooks: the table is built from `opts` TableOptions (hooks per option); every hook has a small
 	// id and records its calls; wantL / wantU are the hooks the table must hold, in registration order
@@ -461,6 +472,9 @@ func (w *world) code(id uuid.UUID) int {
 // notification into a single 'L' / 'U' event when they are the expected hooks in the expected order.
 func (w *world) rawHook(k byte, sb *symbol.Symbol, h int) {
 	c := w.code(sb.ID())
+	if c < 0 {
+		return // an inner symbol of a cluster: not of the universe
+	}
 	w.mu.Lock()
 	w.log = append(w.log, ev{k: k, subj: c, tgt: h})
 	w.mu.Unlock()
@@ -713,7 +727,19 @@ func (w *world) build(d *SymDef) *symbol.Symbol {
 		n := node.NewOneToOneNode(func(_ *process.Process, in *packet.Packet) (*packet.Packet, *packet.Packet) {
 			return nil, answer(in)
 		})
-		sb.Node = &closeLog{Node: n, onClose: onClose}
+		if w.cluster && d.ID%2 == 0 && !d.refsFrom(pError) {
+			// the same node behind a cluster's pipes: `in` feeds the inner node's `in`, its `out`
+			// feeds the cluster's `out`; `error` is not exported (the answer leaves through the
+			// inner node's unlinked error port and comes straight back, as without the cluster).
+			// closeLog hides the cluster's Load/Unload: the inner symbol is never loaded.
+			inner := &symbol.Symbol{Spec: &spec.Meta{ID: uuid.Must(uuid.NewV7()), Kind: "inner", Namespace: nsName(d.NS), Name: "$0"}, Node: n}
+			cl := symbol.NewCluster([]*symbol.Symbol{inner})
+			cl.Inbound(portName[pIn], spec.Port{Name: "$0", Port: portName[pIn]})
+			cl.Outbound(portName[pOut], spec.Port{Name: "$0", Port: portName[pOut]})
+			sb.Node = &closeLog{Node: cl, onClose: onClose}
+		} else {
+			sb.Node = &closeLog{Node: n, onClose: onClose}
+		}
 	case kOneToN:
 		n := node.NewOneToManyNode(func(_ *process.Process, in *packet.Packet) ([]*packet.Packet, *packet.Packet) {
 			return nil, answer(in)
